@@ -436,6 +436,39 @@ pub fn search(tier: &str, seed: u64, s: &mut Search) {
             }
         }
     }
+    // kernels, targets and offsets larger than the region they work on: every neighbourhood primitive with every
+    // edge mode on thin shapes, rendered at full size and as a thumbnail (where a modest kernel dwarfs the region)
+    let nk = (if tier == "thorough" { 1200 } else { 150 }) * mult;
+    for i in 0..nk {
+        let (rw, rh) = match i % 4 {
+            0 => (rng.range(1, 6), rng.range(20, 60)),
+            1 => (rng.range(20, 60), rng.range(1, 6)),
+            2 => (rng.range(2, 12), rng.range(2, 12)),
+            _ => (rng.range(20, 80), rng.range(20, 80)),
+        };
+        let (ox, oy) = (rng.range(1, 15) as usize, rng.range(1, 15) as usize);
+        let (ox, oy) = if rng.chance(1, 2) { (ox, 1) } else if rng.chance(1, 2) { (1, oy) } else { (ox.min(5), oy.min(5)) };
+        let kernel: Vec<String> = (0..ox * oy).map(|_| rng.pick(&["1", "0", "-1", "2", "0.5"]).to_string()).collect();
+        let prim = match rng.below(7) {
+            0 | 1 | 2 => format!(
+                r#"<feConvolveMatrix order="{ox} {oy}" kernelMatrix="{}" targetX="{}" targetY="{}" edgeMode="{}" preserveAlpha="{}"{}/>"#,
+                kernel.join(" "), rng.below(ox as u64), rng.below(oy as u64), rng.pick(&["wrap", "wrap", "duplicate", "none"]), rng.pick(&["true", "false"]),
+                if rng.chance(1, 3) { r#" divisor="3" bias="0.1""# } else { "" }
+            ),
+            3 => format!(r#"<feMorphology operator="{}" radius="{} {}"/>"#, rng.pick(&["erode", "dilate"]), rng.range(0, 90), rng.range(0, 90)),
+            4 => format!(r#"<feOffset dx="{}" dy="{}"/><feTile/>"#, rng.range(-120, 120), rng.range(-120, 120)),
+            5 => format!(r##"<feFlood flood-color="#804020" result="m"/><feDisplacementMap in="SourceGraphic" in2="m" scale="{}" xChannelSelector="R" yChannelSelector="A"/>"##, rng.range(-300, 300)),
+            _ => format!(r#"<feGaussianBlur stdDeviation="{} {}"/>"#, rng.range(0, 200), rng.range(0, 200)),
+        };
+        let region = if rng.chance(1, 2) { format!(r#" filterUnits="userSpaceOnUse" x="10" y="10" width="{rw}" height="{rh}""#) } else { String::new() };
+        let svg = format!(
+            r##"<svg xmlns="http://www.w3.org/2000/svg" width="100" height="100"><filter id="f"{region}>{prim}</filter><rect x="10" y="10" width="{rw}" height="{rh}" fill="green" filter="url(#f)"/><circle cx="60" cy="60" r="{}" fill="#00f" filter="url(#f)"/></svg>"##,
+            rng.range(2, 30)
+        );
+        let scale = *rng.pick(&[1.0f32, 1.0, 0.5, 0.1, 0.05, 0.025, 0.01, 3.0]);
+        let side = ((100.0 * scale).ceil() as u32).clamp(1, 300);
+        run(&mut wk, s, "kernel-vs-region", &svg, side, side, tiny_skia::Transform::from_scale(scale, scale));
+    }
     // corpus files with adversarial magnitudes spliced into numeric attributes
     // (thorough tier, or when a proof/correspondence obligation broke and the search is steered)
     let steered = std::env::var("VERIF_STEER").is_ok();
